@@ -81,6 +81,7 @@ func main() {
 	repo := flag.String("repo", "/repo", "repository root")
 	out := flag.String("out", "", "Lean file to write (default stdout)")
 	deepOut := flag.String("deep", "", "second Lean file: transitive effects, sorted loops, third-party sites, other sources of nondeterminism")
+	descrOut := flag.String("descr", "", "third Lean file: descriptors of the loop bodies (needs -deep)")
 	flag.Parse()
 	root := filepath.Join(*repo, "go")
 	if err := os.Chdir(root); err != nil {
@@ -175,9 +176,9 @@ func main() {
 			problem("cannot read the literal defaultVals in program/config.go")
 		}
 	}
-	var deepText string
+	var deepText, descrText string
 	if *deepOut != "" {
-		deepText = deep(fset, imp, pkgs, sites, sorted)
+		deepText, descrText = deep(fset, imp, pkgs, sites, sorted)
 	}
 	if len(problems) > 0 {
 		for _, p := range problems {
@@ -187,6 +188,9 @@ func main() {
 	}
 	if *deepOut != "" {
 		writeIfChanged(*deepOut, deepText)
+		if *descrOut != "" {
+			writeIfChanged(*descrOut, descrText)
+		}
 	}
 
 	var b strings.Builder
